@@ -219,19 +219,31 @@ func (c *Ctx) Violate(v Violation, recheck func() string) {
 		return
 	}
 	if recheck != nil {
+		matches, last := 0, ""
 		for i := 0; i < 5; i++ {
-			if m := recheck(); m != v.Sig {
-				// Not reproduced. The harness is deterministic, so this happens only when the code under test
-				// carries state from one execution to the next (a package-level cache, a shared buffer). The
-				// candidate is kept aside: it is never reported as a VIOLATION by itself; if the run ends with
-				// no reproducible violation at all, the run is a harness error (exit 2), not a pass.
-				c.mu.Lock()
-				if len(c.flaky) < 20 {
-					c.flaky = append(c.flaky, fmt.Sprintf("sig=%s msg=%q replay%d observed sig=%q", v.Sig, v.Msg, i, m))
-				}
-				c.mu.Unlock()
-				return
+			if m := recheck(); m == v.Sig {
+				matches++
+			} else {
+				last = m
 			}
+		}
+		switch {
+		case matches == 5:
+		case matches >= 1:
+			// The harness is deterministic; an outcome that recurs only sometimes depends on something inside the
+			// code under test that the harness does not control (typically the order of a Go map iteration).
+			// It was observed on the real code and observed again: it is reported, with its reproduction rate.
+			v.Msg += fmt.Sprintf("  [intermittent: reproduced in %d of 5 re-executions of the same witness]", matches)
+		default:
+			// Not reproduced at all: this happens when the code under test carries state from one execution to the
+			// next (a package-level cache, a shared buffer). The candidate is kept aside: it is never reported as a
+			// VIOLATION by itself; if the run ends with nothing reproducible, the run is a harness error (exit 2).
+			c.mu.Lock()
+			if len(c.flaky) < 20 {
+				c.flaky = append(c.flaky, fmt.Sprintf("sig=%s msg=%q re-executions observed sig=%q", v.Sig, v.Msg, last))
+			}
+			c.mu.Unlock()
+			return
 		}
 	}
 	c.mu.Lock()
